@@ -49,6 +49,13 @@ finally:
     subprocess.run(["git", "-C", "/repo", "worktree", "remove", "--force", wt], capture_output=True)
     if "--cleanup" in sys.argv:
         subprocess.run(["git", "-C", "/repo", "worktree", "remove", "--force", f"/tmp/seed-{sid}"], capture_output=True)
+prev = meta.get("confirmed_by_coordinator", {})
+if "upstream_suite" not in conf and "upstream_suite" in prev:
+    conf["upstream_suite"] = prev["upstream_suite"]
+hist = meta.setdefault("check_history", [])
+import subprocess as _sp, time as _t
+hist.append({"verif_commit": _sp.check_output(["git", "-C", "/verif", "rev-parse", "--short", "HEAD"], text=True).strip(),
+             "when": _t.strftime("%Y-%m-%d %H:%M"), "results": {c: r["verdict"] for c, r in conf.get("checks", {}).items()}})
 meta["confirmed_by_coordinator"] = conf
 meta["breaks_property"] = prop
 json.dump(meta, open(f"{dst}/meta.json", "w"), indent=1)
